@@ -52,7 +52,20 @@ Proof.
   - rewrite (Ha s). + rewrite E. reflexivity. + rewrite E. destruct e; try exact I; destruct H.
 Qed.
 
-Lemma mle_or_else a a' b b' : mle a a' -> mle b b' -> mle (or_else a b) (or_else a' b').
+Lemma mle_with_cell sc init body body' after after' :
+  (forall c, mle (body c) (body' c)) -> (forall v, mle (after v) (after' v)) ->
+  mle (with_cell sc init body after) (with_cell sc init body' after').
+Proof.
+  intros Hb Ha s H. unfold with_cell in *.
+  set (st := mkst (outs s) (nout s) (cap s) (nextid s + 1)%N (inputs s) ((nextid s, init) :: cells s) (repsens s) (steps s)) in *.
+  specialize (Hb (nextid s) st). unfold mle in Hb.
+  destruct (body (nextid s) st) as [[x|e] s1] eqn:E.
+  - rewrite Hb by exact I.
+    destruct (cell_lookup (cells s1) (nextid s)); [apply Ha; exact H|reflexivity].
+  - rewrite Hb; [reflexivity|]. destruct e; try exact I; destruct H.
+Qed.
+
+Lemma mle_or_else a a' b b'  : mle a a' -> mle b b' -> mle (or_else a b) (or_else a' b').
 Proof.
   intros Ha Hb s H. unfold or_else in *. destruct (a s) as [[x|e] s1] eqn:E.
   - rewrite (Ha s) by (rewrite E; exact I). rewrite E. reflexivity.
@@ -165,6 +178,7 @@ Ltac mono_step HE :=
     | apply mle_try_catch; [ | intro ]
     | apply mle_catch_break
     | apply mle_or_else
+    | apply mle_with_cell; intro
     | apply mle_down
     | apply mle_guard
     | apply mle_lift; intro
@@ -391,11 +405,11 @@ Qed.
 Lemma reduce_unfold n rho src pat start upd v ps k :
   eval_t bs (S n) rho (Term (TReduce src pat start upd) []) v ps k =
   eval_q bs n rho start v ps (fun s0 ps0 =>
-    c <- new_cell s0 ;;
-    eval_q bs n rho src v ps0 (fun item ps1 =>
-      ev_bindpat (evals_n bs n) rho pat item ps1 (fun rho' ps2 =>
-        cur <- get_cell c ;; eval_q bs n rho' upd cur ps2 (fun u _ => set_cell c u))) ;;
-    res <- get_cell c ;; free_cell c ;; k res ps0).
+    with_cell (scoped_ids ps0) s0
+      (fun c => eval_q bs n rho src v ps0 (fun item ps1 =>
+         ev_bindpat (evals_n bs n) rho pat item ps1 (fun rho' ps2 =>
+           cur <- get_cell c ;; eval_q bs n rho' upd cur ps2 (fun u _ => set_cell c u))))
+      (fun res => k res ps0)).
 Proof. reflexivity. Qed.
 
 Lemma foreach_unfold n rho src pat start upd ext v ps k :
